@@ -12,14 +12,18 @@ import (
 
 // Node is one object of the source tree the harness materialises.
 type Node struct {
-	Rel    string      `json:"rel"`  // path relative to the case root
-	Kind   string      `json:"kind"` // "file", "dir", "symlink"
-	Perm   os.FileMode `json:"perm"` // permission bits incl. os.ModeSetuid/Setgid/Sticky
-	MTime  int64       `json:"mtime"`
-	Size   int         `json:"size,omitempty"`
-	Seed   uint64      `json:"seed,omitempty"`
-	Target string      `json:"target,omitempty"`
-	Bytes  []byte      `json:"-"` // explicit content (scripts, keys); overrides Seed/Size
+	Rel   string      `json:"rel"`  // path relative to the case root
+	Kind  string      `json:"kind"` // "file", "dir", "symlink"
+	Perm  os.FileMode `json:"perm"` // permission bits incl. os.ModeSetuid/Setgid/Sticky
+	MTime int64       `json:"mtime"`
+	// MTimeNS is the sub-second part of the on-disk mtime, derived from Rel when
+	// the tree is written (real build hosts have nanosecond mtimes; archive
+	// writers round or truncate them)
+	MTimeNS int64  `json:"mtime_ns,omitempty"`
+	Size    int    `json:"size,omitempty"`
+	Seed    uint64 `json:"seed,omitempty"`
+	Target  string `json:"target,omitempty"`
+	Bytes   []byte `json:"-"` // explicit content (scripts, keys); overrides Seed/Size
 }
 
 // Content returns the bytes of a file node.
@@ -117,7 +121,8 @@ func (t *Tree) Materialize(root string) error {
 		if err := os.Chmod(p, n.Perm); err != nil {
 			return err
 		}
-		mt := time.Unix(n.MTime, 0)
+		n.MTimeNS = subSecond(n.Rel)
+		mt := time.Unix(n.MTime, n.MTimeNS)
 		if err := os.Chtimes(p, mt, mt); err != nil {
 			return err
 		}
@@ -135,4 +140,22 @@ func (t *Tree) Under(rel string) []*Node {
 		}
 	}
 	return out
+}
+
+// subSecond picks the sub-second part of a node's mtime from its name: none for
+// half of the nodes, just below and at / above half a second for the others.
+func subSecond(rel string) int64 {
+	h := uint32(2166136261)
+	for i := 0; i < len(rel); i++ {
+		h = (h ^ uint32(rel[i])) * 16777619
+	}
+	return []int64{0, 0, 0, 0, 499999999, 500000000, 730000000, 999999999}[h%8]
+}
+
+// MTimeRounded is the on-disk mtime rounded to the nearest second.
+func (n *Node) MTimeRounded() int64 {
+	if n.MTimeNS >= 500000000 {
+		return n.MTime + 1
+	}
+	return n.MTime
 }
